@@ -11,9 +11,12 @@ PROPS = {
         level="exploration",
         technique="property-based testing (rapid): generated instance-type vectors x configurations run through the real "
                   "capacity arithmetic (limits; legacy daemon builder steps InitService / node-label handling / "
-                  "initInstanceLimit / getPoolConfig / initTrunk over an in-memory factory; Node CR flavor; node annotations and extended resources, incl. an "
+                  "initInstanceLimit / getPoolConfig / initTrunk over an in-memory factory; the LingJun path: real EFLO limit "
+                  "provider over a fake GetNodeInfoForPod answer + getPoolConfig, differential against the node "
+                  "controller's handleEFLO on the same answer; Node CR flavor; node annotations and extended resources, incl. an "
                   "in-place instance-type change), checked against inequalities computed from the raw vector",
-        rule="cases drawn by rapid generators (instance-type description, daemon/controller config, node labels incl. "
+        rule="cases drawn by rapid generators (instance-type description, EFLO node-info answers with independent "
+             "LeniQuota / LniSipQuota / LeniSipQuota / HdeniQuota / Quota incl. zeros, daemon/controller config, node labels incl. "
              "exclusive-ENI mode on daemon and controller side, attached-ENI status, interfaces attached to the node "
              "when the daemon starts (secondary / ERDMA / trunk, full or with free slots), factory create faults, optional resize of the same instance "
              "to another generated type); non-trivial = at least one requested feature the instance type lacks, or a "
@@ -22,6 +25,9 @@ PROPS = {
              "distinct = distinct scenario hash",
         assumptions=[
             "instance types have at least one interface and one IPv4 address per interface; pool sizes are >= 0",
+            "LingJun reference: interfaces = LeniQuota, addresses per interface = LniSipQuota, taken from the two "
+            "independent readers of the unchanged tree (daemon EfloLimitProvider, controller handleEFLO) and the "
+            "repository's controller tests; the SDK documents neither field. Independently the two readers must agree",
             "hard oracle at eni_cap_ratio=1 / eni_cap_shift=0 (after Populate); for ratio <= 1, shift <= 0 the outputs "
             "are only required not to exceed the default-ratio outputs",
         ],
@@ -31,7 +37,9 @@ PROPS = {
                    "MaxIPPerENI <= IPv6 per interface; interfaces attached + created by initTrunk <= attachable secondary "
                    "interfaces, trunking off when no slot is free) and through a closed loop (controller -> daemon-side reconcile -> controller) "
                    "over the in-memory API server; exploration, not proof",
-        level_note="k8s.NewK8S needs an API server: the two node-label statements of InitK8S are replayed verbatim on a "
+        level_note="the LingJun limits are obtained by calling LimitProviders[\"eflo\"].GetLimit directly as initInstanceLimit "
+                   "does (b.aliyunClient is a concrete OpenAPI client and cannot be faked inside the builder); "
+                   "k8s.NewK8S needs an API server: the two node-label statements of InitK8S are replayed verbatim on a "
                    "stub k8s.Kubernetes; limits reach the daemon through the node annotation only (b.aliyunClient is a "
                    "concrete OpenAPI client); builder.go:334-356 (ERDMA/annotation arithmetic interleaved with cloud and metadata calls) and the "
                    "count handed to the ERDMA device plugin are not reachable; the node capability file is replaced by "
@@ -39,6 +47,7 @@ PROPS = {
         tests=[
             dict(unit="c19_client", test="TestVerifC19Limits", quick=100000, thorough=2000000),
             dict(unit="c19_daemon", test="TestVerifC19Pool", quick=100000, thorough=2000000),
+            dict(unit="c19_daemon", test="TestVerifC19LingJun", quick=12000, thorough=300000),
             dict(unit="c19_ctlnode", test="TestVerifC19NodeAnno", quick=16000, thorough=300000),
             dict(unit="c19_eni", test="TestVerifC19NodeReconcile", quick=16000, thorough=300000),
             dict(unit="c19_eni", test="TestVerifC19ClosedLoop", quick=16000, thorough=300000),
